@@ -96,6 +96,25 @@ func init() {
 // packageInitHook provides the protoreflect descriptors of a generated package: it parses
 // every file_*_rawDesc byte slice (already evaluated by the package initialiser) and binds
 // the File_* variables to opaque descriptor objects computed from it.
+func init() {
+	specs["C16"] = func(tier string) (*Plan, error) {
+		u := staticUnit("anyutil", "anyutil", "anyutil_c16.go.txt")
+		return &Plan{
+			LoadDir:  repoDir,
+			Patterns: []string{"./anyutil"},
+			Units:    []*Unit{u},
+			Regex:    "^VH_C16_",
+			Bounds: map[string]string{
+				"any":       "type URL: arbitrary string of 0..6 bytes; value: 0..4 arbitrary bytes",
+				"resolvers": "type resolver: found / NotFound / other error; file resolver: message, enum, service or field descriptor, or NotFound - every combination",
+				"source":    "message with an arbitrary full name (0..4 bytes) whose marshaller returns arbitrary bytes (0..4) or an error; Deterministic and AllowPartial symbolic",
+			},
+			Assume: []string{"protobuf-go's registries, dynamicpb and Any.UnmarshalTo honour their documented contracts (so 'unpacking returns a message equal to m' is relative to them)"},
+			Stubs:  []string{"(*anypb.Any).UnmarshalTo -> nil or opaque error", "resolvers, message types and messages are harness-level Go stubs (interpreted by the engine and used unchanged in native replay)", "proto.checkInitialized -> nil"},
+		}, nil
+	}
+}
+
 func packageInitHook(e *sym.Exec, pkg *ssa.Package) {
 	var names []string
 	for n := range pkg.Members {
